@@ -244,3 +244,7 @@ mod tests {
         }
     }
 }
+
+#[cfg(kani)]
+#[path = "/verif/kani/arrow-avro/reader/block.rs"]
+mod verif_kani;
